@@ -8,7 +8,7 @@ from lv.props import common
 
 ID = 'C04'
 BUDGET = {'quick': 256, 'thorough': 4000}      # generated programs (~16 predicates each)
-WALL = {'quick': 900, 'thorough': 7200}
+WALL = {'quick': 2400, 'thorough': 14400}   # last resort only; a shard cut here loses its cases
 RULE = ('layered non-recursive programs from the typed generator (facts with duplicates, '
         'joins, disjunction, negation, aggregation, functional predicates, nullary '
         'functional constants) with 1-6 statements N := F(A: B, ...) printed at random '
